@@ -71,28 +71,37 @@ KsRf(w) == [dc \in RangeOf(w.rfdc) |-> w.rfn[CHOOSE j \in 1 .. Len(w.rfdc) : w.r
 \* token-aware selection applies: token-aware policy, routing key given, partitioner known
 TokenAware(w, s, q) == w.ta /\ q # NoTok /\ s.partset
 
-\* replicas of token q: Cassandra's placement when the keyspace is known, otherwise the owner of
-\* the token is the only replica known
-Replicas(w, s, q) ==
+\* Cassandra's placement of token q on the current ring (empty while the keyspace is unknown)
+Placement(w, s, q) ==
   LET ring == CurRing(w, s)
       toks == CurTokens(w, s) IN
-  IF Len(ring) = 0 THEN <<>>
+  IF Len(ring) = 0 \/ ~s.ksknown THEN <<>>
   ELSE LET p == PrimaryIndex(toks, q) IN
-       IF ~s.ksknown THEN <<ring[p]>>
-       ELSE IF w.strat = "simple" THEN Simple(ring, p, w.rfn[1])
-       ELSE Nts(ring, p, w.dc, w.rack, KsRf(w))
+       IF w.strat = "simple" THEN Simple(ring, p, w.rfn[1]) ELSE Nts(ring, p, w.dc, w.rack, KsRf(w))
 Owner(w, s, q) == LET ring == CurRing(w, s) IN IF Len(ring) = 0 THEN 0 ELSE ring[PrimaryIndex(CurTokens(w, s), q)]
+\* The replicas a policy can know: Cassandra's placement; where that is empty (keyspace metadata not
+\* available, or a keyspace without any replica in this ring) the owner of the token stands in.
+\* The property does not say which of the two readings applies in that corner (Ambiguous): the
+\* prediction uses the owner, a real sequence is accepted under either reading.
+Replicas(w, s, q) ==
+  LET pl == Placement(w, s, q) IN
+  IF pl # <<>> THEN pl ELSE IF Owner(w, s, q) = 0 THEN <<>> ELSE <<Owner(w, s, q)>>
+Ambiguous(w, s, q) == TokenAware(w, s, q) /\ Owner(w, s, q) # 0 /\ Placement(w, s, q) = <<>>
 
-\* everything the predicates need to know about query token q in state s, computed once:
-\* up replicas of the nearest tier / of farther tiers (the latter count only with non-local fallback)
-QCtx(w, s, q) ==
+\* everything the predicates need to know about query token q in state s, computed once, for a
+\* given replica list: up replicas of the nearest tier / of farther tiers (the latter count only
+\* with non-local fallback)
+QCtxR(w, s, q, replicas) ==
   LET ta == TokenAware(w, s, q)
-      reps == IF ta THEN Replicas(w, s, q) ELSE <<>>
+      reps == IF ta THEN replicas ELSE <<>>
       live == Live(s)
   IN [ta |-> ta, reps |-> reps, live |-> live,
       owner |-> IF ta THEN Owner(w, s, q) ELSE 0,
       near |-> {h \in RangeOf(reps) : h \in live /\ Tier(w, h) = 0},
       far |-> IF w.nonlocal THEN {h \in RangeOf(reps) : h \in live /\ Tier(w, h) > 0} ELSE {}]
+QCtx(w, s, q) == QCtxR(w, s, q, IF TokenAware(w, s, q) THEN Replicas(w, s, q) ELSE <<>>)
+\* the other reading in the ambiguous corner: no replicas at all
+QCtxAlt(w, s, q) == QCtxR(w, s, q, <<>>)
 
 \* ------------------------------------------------------------------ Part 2
 TierMonotone(w, seq) == \A a, b \in 1 .. Len(seq) : a < b => Tier(w, seq[a]) <= Tier(w, seq[b])
